@@ -97,4 +97,25 @@ theorem quadFaces_bound (rows : List Nat) (start : Nat) :
     · have := ih (start + 2 * (c + 1)) f hf i hi
       omega
 
+/-- Slot invariant: every cache slot is empty or holds what its property is documented to return. -/
+def LazyInv (st : LState) : Prop := ∀ q, st q = none ∨ st q = some q.designated
+
+theorem lazy_assign_inv (st : LState) (ws : List (LazyProp × Content)) (h : LazyInv st)
+    (hw : ∀ w ∈ ws, w.2 = w.1.designated) : LazyInv (st.assign ws) := by
+  induction ws generalizing st with
+  | nil => simpa [LState.assign] using h
+  | cons w rest ih =>
+    have hrest : ∀ w' ∈ rest, w'.2 = w'.1.designated := fun w' hw' => hw w' (by simp [hw'])
+    have hw0 := hw w (by simp)
+    simp only [LState.assign, List.foldl_cons]
+    apply ih _ _ hrest
+    intro q
+    by_cases hq : q = w.1
+    · right; simp [hq, hw0]
+    · simpa [hq] using h q
+
+theorem lazy_assign_own (st : LState) (p : LazyProp) :
+    (st.assign p.writes) p.slot = some p.designated := by
+  cases p <;> simp [LState.assign, LazyProp.writes, LazyProp.slot, LazyProp.designated]
+
 end Dome
